@@ -501,10 +501,13 @@ class BaseOrchestrator(ABC):
         #     it should try to finish all the calls in this function
 
         # TODO store Retry exception on Retry status
+        # Count the retry before RETRY becomes visible: a runner whose task waits on this
+        # invocation claims it straight from the wait graph as soon as it is RETRY, and the
+        # re-run must not read a stale retry count.
+        self.app.orchestrator.increment_invocation_retries(invocation_id)
         self.app.orchestrator.set_invocation_status(
             invocation_id, InvocationStatus.RETRY, runner_ctx
         )
-        self.app.orchestrator.increment_invocation_retries(invocation_id)
         self.app.broker.route_invocation(invocation_id)
 
     def is_candidate_to_run_by_concurrency_control(
